@@ -9,10 +9,11 @@ Pass 2: the real command line entry `pdpy11._cli.main_cli()` run *in process* un
 Pass 3 (sample, see c08.py): the real CLI in a subprocess on real files.
 
 Resource bound of G (harness-side instrumentation, nothing in /repo is touched): a text that makes the assembler
-compile more than MAX_STMTS statements (counting `.repeat`/`.include` multiplicity), run a `.repeat` of more than
-MAX_STMTS iterations, shift by more than MAX_SHIFT bits, build an integer of more than MAX_BITS bits, nest
-includes deeper than MAX_INCLUDE, write an expression with more than MAX_OPERATORS operators or align to more than
-MAX_ALIGN bytes is *out of domain*: it is counted, never judged.
+compile more than MAX_STMTS statements (counting `.repeat`/`.include` multiplicity), shift by more than MAX_SHIFT bits,
+build an integer of more than MAX_BITS bits or write an expression with more than MAX_OPERATORS operators is *out of
+domain*: it is counted, never judged.  Counts, sizes, alignments, addresses and include depth are NOT bounded by the
+harness (since fixes 347eeb8 / 5b48d07 / 83e4c6e the assembler itself must refuse the absurd ones); worker processes
+run under RLIMIT_AS = 2 GB so that memory exhaustion is an observed outcome (class crash: MemoryError).
 """
 import io
 import os
@@ -27,9 +28,7 @@ import impl
 MAX_STMTS = 4000
 MAX_SHIFT = 4096
 MAX_BITS = 1 << 20
-MAX_INCLUDE = 3
 MAX_OPERATORS = 64       # operators in one expression
-MAX_ALIGN = 65536
 ROOT = "/c08"            # virtual directory of the in-memory file system
 BANNER = "An unexpected internal compiler error happened"
 
@@ -41,7 +40,6 @@ class WorkLimit(BaseException):
 class _State:
     installed = False
     stmts = 0
-    include_depth = 0
 
 
 def _install():
@@ -53,49 +51,20 @@ def _install():
     if multiprocessing.current_process().name != "MainProcess":
         # safety net only (a value blow-up must not take the machine down); the domain bound is measured below
         try:
-            resource.setrlimit(resource.RLIMIT_AS, (3 << 30, 3 << 30))
+            resource.setrlimit(resource.RLIMIT_AS, (2 << 30, 2 << 30))
         except Exception:
             pass
     comp = m["compiler"].Compiler
     orig_block = comp.compile_block
 
     def compile_block(self, state, block, start):
-        _State.stmts += len(block.insns) + 1
+        _State.stmts += len(block.insns)
         if _State.stmts > MAX_STMTS:
             raise WorkLimit("statements")
         return orig_block(self, state, block, start)
     comp.compile_block = compile_block
 
-    orig_include = comp.compile_include
-
-    def compile_include(self, file, addr):
-        _State.include_depth += 1
-        try:
-            if _State.include_depth > MAX_INCLUDE:
-                raise WorkLimit("include-depth")
-            return orig_include(self, file, addr)
-        finally:
-            _State.include_depth -= 1
-    comp.compile_include = compile_include
-
-    from pdpy11.metacommand_impl import metacommands
-    rep = metacommands[".repeat"]
-    orig_rep = rep.fn
-
-    def repeat(state, count, body):
-        if isinstance(count, int) and count > MAX_STMTS:
-            raise WorkLimit("repeat-count")
-        return orig_rep(state, count, body)
-    rep.fn = repeat
-
-    al = metacommands[".align"]
-    orig_al = al.fn
-
-    def align(state, count):
-        if isinstance(count, int) and count > MAX_ALIGN:
-            raise WorkLimit("align-size")
-        return orig_al(state, count)
-    al.fn = align
+    from pdpy11.metacommand_impl import metacommands  # noqa: F401
 
     pexpr = m["parser"].expression
     orig_expr = pexpr.fn
@@ -152,7 +121,6 @@ def _install():
 
 def _reset():
     _State.stmts = 0
-    _State.include_depth = 0
 
 
 def abs_case(case):
@@ -318,7 +286,7 @@ def judge(case, watchdog=None, cli=True):
     if r["outcome"] == "crash":
         if r["crash"]["exc"] == "MemoryError":
             # only the RLIMIT safety net can produce this; the measured bounds above should have fired first
-            V.append({"signature": sig_of("crash", r["crash"]), "what": "assembling ran out of memory (3 GB safety limit)", "detail": r["crash"]})
+            V.append({"signature": sig_of("crash", r["crash"]), "what": "assembling ran out of memory (2 GB address-space limit of the worker)", "detail": r["crash"]})
         else:
             V.append({"signature": sig_of("crash", r["crash"]), "what": "assembling died with an internal exception instead of a result or a reported error", "detail": r["crash"]})
         return res
